@@ -235,3 +235,251 @@ func ruleV7(c *Ctx) {
 		c.viol(key, c.P.Pos(at), fmt.Sprintf("%d ITERPUSH site(s) but %d ITERPOP site(s): a loop that completes normally leaves its iterator on the frame's iterator stack (the collection stays locked until the function returns) or pops one it did not push", np, nq))
 	}
 }
+
+func init() {
+	register("S5", "the step limit is absolute: Thread.maxSteps is assigned only the caller's limit (or the MaxUint64 default), never a value derived from the current step count", 1, ruleS5)
+	register("A5", "*args is a private copy: in setArgs every tuple stored into the callee's locals is allocated in setArgs; it is never a (sub)slice of the args parameter, which may be a window onto the caller's operand stack", 1, ruleA5)
+	register("O8", "nesting counters are balanced: each increment of a resolver nesting counter (loops, ifstmts) is matched by a decrement in the same function, and a counter that a function resets is restored from a saved copy before the function returns", 3, ruleO8)
+	register("E7", "no representation equality on ints: values of type starlark.Int are never compared with Go's == / != outside the Int implementation (for big ints that compares pointers, not numbers)", 1, ruleE7)
+	register("H6", "presence is decided by the found result: every call of Dict.Get / hashtable.lookup in the built-in library whose value result is used also consumes the found result (a stored None is not an absent key)", 5, ruleH6)
+}
+
+func ruleS5(c *Ctx) {
+	n := 0
+	for _, fn := range c.P.Funcs {
+		if !isProdPkg(fnPkgPath(fn)) {
+			continue
+		}
+		eachInstr(fn, func(in ssa.Instruction) {
+			st, ok := storeToField(in, "starlark.Thread", "maxSteps")
+			if !ok {
+				return
+			}
+			n++
+			key := fmt.Sprintf("%s: store Thread.maxSteps", fnName(fn))
+			bad := false
+			for y := range backSlice(st.Val) {
+				if ld, ok := y.(*ssa.UnOp); ok && ld.Op == token.MUL {
+					if fa, ok := ld.X.(*ssa.FieldAddr); ok {
+						if o, f := ownerField(fa); o == "starlark.Thread" && f == "Steps" {
+							bad = true
+						}
+					}
+				}
+			}
+			if bad {
+				c.viol(key, c.P.Pos(st.Pos()), "the limit is computed from the steps already executed: a thread that has run K steps and is given limit N may execute up to K+N-1 steps, i.e. N or more")
+			} else {
+				c.ok(key, c.P.Pos(st.Pos()), "independent of Thread.Steps")
+			}
+		})
+	}
+	if n == 0 {
+		c.anchorFail("no store to Thread.maxSteps found")
+	}
+}
+
+func ruleA5(c *Ctx) {
+	fn := c.P.Func("starlark", "setArgs")
+	if fn == nil {
+		c.anchorFail("starlark.setArgs not found")
+		return
+	}
+	fc := computeReturnsFresh(c.P)
+	var localsP, argsP *ssa.Parameter
+	for _, p := range fn.Params {
+		switch p.Name() {
+		case "locals":
+			localsP = p
+		case "args":
+			argsP = p
+		}
+	}
+	if localsP == nil || argsP == nil {
+		c.anchorFail("setArgs has no locals/args parameters")
+		return
+	}
+	n := 0
+	eachInstr(fn, func(in ssa.Instruction) {
+		st, ok := in.(*ssa.Store)
+		if !ok {
+			return
+		}
+		ia, ok := st.Addr.(*ssa.IndexAddr)
+		if !ok || ia.X != localsP {
+			return
+		}
+		mi, ok := st.Val.(*ssa.MakeInterface)
+		if !ok || !isNamed(mi.X.Type(), "starlark", "Tuple") {
+			return
+		}
+		n++
+		key := "starlark.setArgs: tuple stored into locals"
+		bad := ""
+		for _, p := range provenance(fc, mi.X) {
+			if p.kind != "fresh" {
+				bad = p.kind
+				if p.kind == "param" {
+					bad = "a slice of parameter " + p.v.Name()
+				}
+			}
+		}
+		if bad == "" {
+			c.ok(key, c.P.Pos(st.Pos()), "freshly allocated tuple")
+		} else {
+			c.viol(key, c.P.Pos(st.Pos()), "the *args tuple bound in the callee is "+bad+": the CALL instruction passes a window onto the caller's operand stack, so the tuple's elements change when the caller reuses those slots")
+		}
+	})
+	if n == 0 {
+		c.viol("starlark.setArgs: tuple stored into locals", c.P.Pos(fn.Pos()), "setArgs no longer stores a tuple for *args")
+	}
+}
+
+func ruleO8(c *Ctx) {
+	counters := map[string]bool{"loops": true, "ifstmts": true}
+	n := 0
+	for _, fn := range c.P.Funcs {
+		if fnPkgPath(fn) != modPath+"/resolve" {
+			continue
+		}
+		type acc struct{ inc, dec, reset, restore int }
+		per := map[string]*acc{}
+		var first token.Pos
+		eachInstr(fn, func(in ssa.Instruction) {
+			st, ok := in.(*ssa.Store)
+			if !ok {
+				return
+			}
+			fa, ok := st.Addr.(*ssa.FieldAddr)
+			if !ok {
+				return
+			}
+			o, f := ownerField(fa)
+			if o != "resolve.resolver" || !counters[f] {
+				return
+			}
+			if first == token.NoPos {
+				first = st.Pos()
+			}
+			a := per[f]
+			if a == nil {
+				a = &acc{}
+				per[f] = a
+			}
+			switch v := st.Val.(type) {
+			case *ssa.BinOp:
+				if k, ok := constInt(v.Y); ok && k == 1 && derivesFromField(v.X, "resolve.resolver", f) {
+					if v.Op == token.ADD {
+						a.inc++
+					} else if v.Op == token.SUB {
+						a.dec++
+					}
+					return
+				}
+				a.restore++
+			case *ssa.Const:
+				a.reset++
+			default:
+				// restored from a saved copy (a load of the same field taken earlier)
+				if derivesFromField(v, "resolve.resolver", f) {
+					a.restore++
+				} else {
+					a.reset++
+				}
+			}
+		})
+		for f, a := range per {
+			n++
+			key := fmt.Sprintf("%s: counter %s", fnName(fn), f)
+			switch {
+			case a.inc != a.dec:
+				c.viol(key, c.P.Pos(first), fmt.Sprintf("%d increments but %d decrements of r.%s: the nesting depth drifts, so later statements are judged as nested (or not) wrongly", a.inc, a.dec, f))
+			case a.reset != a.restore:
+				c.viol(key, c.P.Pos(first), fmt.Sprintf("r.%s is reset %d time(s) but restored %d time(s): after this function the enclosing statement's nesting depth is lost, so a statement that must be rejected there (e.g. a load inside a conditional) is accepted", f, a.reset, a.restore))
+			default:
+				c.ok(key, c.P.Pos(first), fmt.Sprintf("inc/dec %d/%d, reset/restore %d/%d", a.inc, a.dec, a.reset, a.restore))
+			}
+		}
+	}
+	if n == 0 {
+		c.anchorFail("no resolver nesting counters found")
+	}
+}
+
+func ruleE7(c *Ctx) {
+	n := 0
+	for _, fn := range c.P.Funcs {
+		if !isProdPkg(fnPkgPath(fn)) || inIntFiles(c.P, fn) {
+			continue
+		}
+		eachInstr(fn, func(in ssa.Instruction) {
+			b, ok := in.(*ssa.BinOp)
+			if !ok || (b.Op != token.EQL && b.Op != token.NEQ) {
+				return
+			}
+			if qualType(b.X.Type()) != "starlark.Int" || isPtr(b.X.Type()) {
+				return
+			}
+			n++
+			c.viol(fmt.Sprintf("%s: Go %s on starlark.Int", fnName(fn), b.Op), c.P.Pos(b.Pos()), "two starlark.Int values are compared with Go's "+b.Op.String()+": ints beyond int32 are held as *big.Int, so this compares pointers; two separately computed equal ints are then unequal (dict lookups, 'in', list.index disagree with ==)")
+		})
+	}
+	c.trivial("Go ==/!= on starlark.Int outside the Int implementation", "-", fmt.Sprintf("%d found", n))
+}
+
+func ruleH6(c *Ctx) {
+	n := 0
+	for _, fn := range c.P.Funcs {
+		if fnPkgPath(fn) != modPath+"/starlark" {
+			continue
+		}
+		eachInstr(fn, func(in ssa.Instruction) {
+			call, ok := in.(*ssa.Call)
+			if !ok {
+				return
+			}
+			cal := call.Call.StaticCallee()
+			isGet := false
+			if cal != nil && (methodIs(cal, "starlark", "Dict", "Get") || methodIs(cal, "starlark", "hashtable", "lookup")) {
+				isGet = true
+			}
+			if call.Call.IsInvoke() && call.Call.Method.Name() == "Get" && call.Call.Signature().Results().Len() == 3 {
+				isGet = true
+			}
+			if !isGet {
+				return
+			}
+			var vUsed, fUsed bool
+			for _, r := range *call.Referrers() {
+				ex, ok := r.(*ssa.Extract)
+				if !ok {
+					// returned whole (`return d.ht.lookup(k)`): found is passed on
+					if _, isRet := r.(*ssa.Return); isRet {
+						vUsed, fUsed = true, true
+					}
+					continue
+				}
+				used := ex.Referrers() != nil && len(*ex.Referrers()) > 0
+				switch ex.Index {
+				case 0:
+					vUsed = vUsed || used
+				case 1:
+					fUsed = fUsed || used
+				}
+			}
+			if !vUsed {
+				return
+			}
+			n++
+			key := fmt.Sprintf("%s: result of %s", fnName(fn), calleeName(call))
+			if fUsed {
+				c.ok(key, c.P.Pos(call.Pos()), "the found result is consumed")
+			} else {
+				c.viol(key, c.P.Pos(call.Pos()), "the value returned by the lookup is used but its 'found' result is discarded: a key whose value is None is then treated as absent (e.g. setdefault overwrites it)")
+			}
+		})
+	}
+	if n < 5 {
+		c.anchorFail("only %d lookups examined", n)
+	}
+}
